@@ -618,7 +618,8 @@ def build(spec):
     for s, b in all_blocks(spec):
         cfi = b.get("cfi") or {}
         isz = [isa_.size(T(i)) for i in b["i"]]
-        for k, ds in cfi.items():
+        # "cfi_desc": the table receives this block's offsets in descending order (aux data need not be written in offset order)
+        for k, ds in (sorted(cfi.items(), key=lambda kv: -int(kv[0])) if b.get("cfi_desc") else cfi.items()):
             off = sum(isz[: int(k)])
             lst = []
             for d in ds:
